@@ -8,8 +8,8 @@ From GVL Require Import NList.
 From GV Require Import Res Str.
 Open Scope N_scope.
 
-Definition kv := (list N * list N)%type.
-Definition kvs := list kv.
+Notation kv := (list N * list N)%type (only parsing).
+Notation kvs := (list (list N * list N)) (only parsing).
 
 Definition EQ : N := 61.   (* '=' *)
 Definition DQ : N := 34.   (* double quote *)
@@ -74,6 +74,33 @@ Fixpoint kv_loop (fuel : list N) (s : list N) (sep : N) (m : kvs) : option kvs :
   end.
 
 Definition kv_parse (s : list N) (sep : N) : option kvs := kv_loop s s sep [].
+
+(* ---- the marshalling side: a header value is rendered as a list of items joined by sep (+ spaces) ---- *)
+Inductive vform := VBare | VPlain (v : list N) | VQuoted (v : list N).
+Notation item := (list N * vform)%type (only parsing).
+Definition render_item (it : item) : list N :=
+  match snd it with
+  | VBare => fst it
+  | VPlain v => fst it ++ [EQ] ++ v
+  | VQuoted v => fst it ++ [EQ; DQ] ++ v ++ [DQ]
+  end.
+Fixpoint render_items (sepgap : list N) (its : list item) : list N :=
+  match its with
+  | [] => []
+  | [a] => render_item a
+  | a :: r => render_item a ++ sepgap ++ render_items sepgap r
+  end.
+Definition item_kv (it : item) : kv :=
+  (fst it, match snd it with VBare => [] | VPlain v => v | VQuoted v => v end).
+Definition opt_it {A} (o : option A) (f : A -> item) : list item :=
+  match o with Some x => [f x] | None => [] end.
+
+(* the range-over-map loop of every Unmarshal: None = return err *)
+Fixpoint ofold {S} (step : S -> kv -> option S) (st : S) (l : kvs) : option S :=
+  match l with
+  | [] => Some st
+  | e :: r => match step st e with Some st' => ofold step st' r | None => None end
+  end.
 
 (* an iteration order: must be a permutation of its argument (stated where it is needed) *)
 Definition order_t := kvs -> kvs.
